@@ -834,3 +834,47 @@ func witness(s *core.Shard, f core.Finding) (bool, string) {
 }
 
 func jsonUnmarshal(b []byte, v any) error { return json.Unmarshal(b, v) }
+
+// TraversalSlice is a reduced traversal workload used by C19 (the library's own
+// parallel operations must be free of deadlocks and propagate the first error):
+// failing visitors under concurrency limits on small DAGs, release orders
+// enumerated depth-first, plus seeded yield-point schedules.
+func TraversalSlice(s *core.Shard, next func(string) bool) {
+	r := &runner{s: s}
+	rng := s.Rand(fmt.Sprintf("traversal-slice-%d", s.Index))
+	for n := 2; n <= 4; n++ {
+		ps := pairs(n, n == 4)
+		for mask := 0; mask < 1<<len(ps); mask++ {
+			es := edgesOf(ps, mask)
+			if !acyclic(n, es) {
+				continue
+			}
+			if !next(fmt.Sprintf("traversal/%d/%d", n, mask)) {
+				continue
+			}
+			for _, rev := range []bool{false, true} {
+				for _, max := range []int{1, 2} {
+					var failSets [][]int
+					for f := 0; f < n; f++ {
+						failSets = append(failSets, []int{f})
+					}
+					failSets = append(failSets, []int{0, n - 1})
+					if n >= 3 {
+						failSets = append(failSets, []int{0, 1, 2})
+					}
+					for _, fs := range failSets {
+						if (mask+len(fs)+max)%2 == 0 && !s.Thorough() {
+							continue
+						}
+						r.dfs(&RunSpec{N: n, Edges: es, Reverse: rev, Max: max, Fail: fs}, s.Pick(8, 40))
+					}
+				}
+			}
+			rs := &RunSpec{N: n, Edges: es, Hooks: true, Reverse: rng.Intn(2) == 0, Max: 1 + rng.Intn(2), Fail: []int{rng.Intn(n)}, Strategy: strategies[rng.Intn(len(strategies))], RandSeed: rng.Int63()}
+			r.random(rs, rand.New(rand.NewSource(rs.RandSeed)))
+			if r.deadlock > 10 {
+				return
+			}
+		}
+	}
+}
